@@ -1944,7 +1944,7 @@ fn run(ctx: &mut Ctx) {
     let thorough = ctx.thorough();
 
     // ---- dict
-    ctx.phase("dict", ctx.by_tier(12_000, 400_000));
+    ctx.phase("dict", ctx.by_tier(9_000, 400_000));
     while let Some(k) = ctx.next_case() {
         if !ctx.within(0.25) {
             break;
@@ -1976,7 +1976,7 @@ fn run(ctx: &mut Ctx) {
     }
 
     // ---- star
-    ctx.phase("star", ctx.by_tier(14_000, 400_000));
+    ctx.phase("star", ctx.by_tier(11_000, 400_000));
     while let Some(k) = ctx.next_case() {
         if !ctx.within(0.5) {
             break;
@@ -2029,7 +2029,7 @@ fn run(ctx: &mut Ctx) {
     }
 
     // ---- union
-    ctx.phase("union", ctx.by_tier(24_000, 600_000));
+    ctx.phase("union", ctx.by_tier(18_000, 600_000));
     let mut shrunk_per_kind: BTreeMap<String, u32> = BTreeMap::new();
     while let Some(k) = ctx.next_case() {
         let mut r = ctx.rng(k);
